@@ -70,8 +70,8 @@ impl Variable {
     fn debug(&self, depth: u8) -> String {
         match_any! { self,
             Self::Int(value)
-            | Self::Float(value)
-            | Self::String(value) => format!("{value:?}"),
+            | Self::Float(value) => format!("{value:?}"),
+            Self::String(value) => debug_string(value),
             _ => self.string(depth)
         }
     }
@@ -117,6 +117,22 @@ impl Variable {
             Type::Never => None,
         }
     }
+}
+
+/// Quoted and escaped rendering of a string that reads back as the same string.
+fn debug_string(value: &str) -> String {
+    let mut result = String::with_capacity(value.len() + 2);
+    result.push('"');
+    for ch in value.chars() {
+        match ch {
+            // "\0" followed by a digit would be read back as an octal escape
+            '\0' => result.push_str("\\u{0}"),
+            '\'' => result.push(ch),
+            ch => result.extend(ch.escape_debug()),
+        }
+    }
+    result.push('"');
+    result
 }
 
 impl Typed for Variable {
